@@ -96,10 +96,7 @@ def step' (av : Avail) (line : String) : Avail × String :=
           if u == "tests".toList then (select av.tests ls).map undot
           else if u == "nets".toList then ((av.nets.filter (fun n => keep ls n.1)).map (·.2))
           else
-            let vm := u.drop 3
-            match av.vmObjs.find? (·.1 == vm) with
-            | some p => (select p.2 ls).map undot
-            | none => []
+            (select (vmUniverse av (u.drop 3)) ls).map undot
         (av, out ["ok".toList, joinWith ' ' names])
     | _, _ => (av, "bad-op")
   | [] => (av, "bad-op")
